@@ -153,6 +153,23 @@ def install_net(seed, cfg=None):
   net = Net(seed, cfg)
   ss.gsocket = net.socket_factory()
   ss.socket = net.socket_module()
+  # stamp every ScalesSocket with its creation time so that a connect attempt
+  # can be attributed to the transport object that makes it
+  import scales.sink as sk
+  from .loop import CLOCK
+
+  class StampedScalesSocket(ss.ScalesSocket):
+    def __init__(self, host, port):
+      ss.ScalesSocket.__init__(self, host, port)
+      self.sim_created_at = CLOCK.now
+
+    def open(self):
+      net.current_opener = self
+      try:
+        return ss.ScalesSocket.open(self)
+      finally:
+        net.current_opener = None
+  sk.ScalesSocket = StampedScalesSocket
   return net
 
 
